@@ -340,6 +340,101 @@ pub open spec fn nil_under(g: G, n: int) -> bool {
     0 <= g.ng[0].pos < g.ord.len() && g.ord[g.ng[0].pos] == 0u32 ==> g.ng[n].a <= g.ng[0].pos < g.ng[n].b
 }
 
+
+// clause G (needed by the expiring-key tree): a fix-up for a deficit at position pos(x) never moves the
+// outer boundary of any node that has that position on its left (resp. right), and never changes positions
+pub open spec fn same_pos(g1: G, g0: G) -> bool {
+    &&& g1.ng.len() == g0.ng.len()
+    &&& g1.ord == g0.ord
+    &&& forall|m: int| 0 <= m < g0.ng.len() ==> (#[trigger] g1.ng[m]).pos == g0.ng[m].pos
+}
+
+pub open spec fn keeps_bounds(g1: G, g0: G, pn: int) -> bool {
+    forall|m: int| 0 <= m < g0.ng.len() && 0 <= g0.ng[m].pos < g0.ord.len() && g0.ord[g0.ng[m].pos] as int == m ==> {
+        &&& (g0.ng[m].a <= pn < g0.ng[m].pos ==> (#[trigger] g1.ng[m]).a == g0.ng[m].a)
+        &&& (g0.ng[m].pos < pn < g0.ng[m].b ==> g1.ng[m].b == g0.ng[m].b)
+    }
+}
+
+
+
+// clause G2: a fix-up for a deficit at node x never changes the range of any node inside x's subtree
+pub open spec fn keeps_inside(g1: G, g0: G, x: int) -> bool {
+    forall|m: int| 0 <= m < g0.ng.len() && g0.ng[x].a <= g0.ng[m].pos < g0.ng[x].b ==>
+        (#[trigger] g1.ng[m]).a == g0.ng[m].a && g1.ng[m].b == g0.ng[m].b
+}
+
+pub proof fn lemma_inside_trans(g2: G, g1: G, g0: G, x: int)
+    requires same_pos(g1, g0), keeps_inside(g1, g0, x), keeps_inside(g2, g1, x), 0 <= x < g0.ng.len(), g0.ng[x].a <= g0.ng[x].pos < g0.ng[x].b,
+    ensures keeps_inside(g2, g0, x),
+{
+    assert(g1.ng[x].a == g0.ng[x].a && g1.ng[x].b == g0.ng[x].b);
+    assert forall|m: int| 0 <= m < g0.ng.len() && g0.ng[x].a <= g0.ng[m].pos < g0.ng[x].b implies
+        (#[trigger] g2.ng[m]).a == g0.ng[m].a && g2.ng[m].b == g0.ng[m].b by {
+        assert(g1.ng[m].pos == g0.ng[m].pos);
+    }
+}
+
+pub proof fn lemma_bounds_refl(g: G, pn: int)
+    ensures same_pos(g, g), keeps_bounds(g, g, pn), forall|x: int| keeps_inside(g, g, x),
+{
+}
+
+pub proof fn lemma_bounds_trans(g2: G, g1: G, g0: G, pn: int)
+    requires same_pos(g1, g0), same_pos(g2, g1), keeps_bounds(g1, g0, pn), keeps_bounds(g2, g1, pn),
+    ensures same_pos(g2, g0), keeps_bounds(g2, g0, pn),
+{
+    assert forall|m: int| 0 <= m < g0.ng.len() && 0 <= g0.ng[m].pos < g0.ord.len() && g0.ord[g0.ng[m].pos] as int == m implies {
+        &&& (g0.ng[m].a <= pn < g0.ng[m].pos ==> (#[trigger] g2.ng[m]).a == g0.ng[m].a)
+        &&& (g0.ng[m].pos < pn < g0.ng[m].b ==> g2.ng[m].b == g0.ng[m].b)
+    } by {
+        assert(g1.ng[m].pos == g0.ng[m].pos);
+    }
+}
+
+// moving the reference point of clause G from a node n to its parent p (case 4 of the delete fix-up)
+pub proof fn lemma_bounds_up<K: Ord, V>(buf: Buf<K, V>, g0: G, root: u32, n: int, g1: G, g2: G)
+    requires
+        sinv(buf, g0, root), in_tree(buf, g0, n), buf[n].parent != EMPTY_REF,
+        same_pos(g1, g0),
+        forall|m: int| 0 <= m < g0.ng.len() ==> (#[trigger] g1.ng[m]).a == g0.ng[m].a && g1.ng[m].b == g0.ng[m].b,
+        same_pos(g2, g1),
+        keeps_bounds(g2, g1, g1.ng[buf[n].parent as int].pos),
+        keeps_inside(g2, g1, buf[n].parent as int),
+    ensures
+        same_pos(g2, g0), keeps_bounds(g2, g0, g0.ng[n].pos), keeps_inside(g2, g0, n),
+{
+    let p = buf[n].parent as int;
+    let pn = g0.ng[n].pos;
+    reveal(sinv);
+    assert(node_ok(buf, g0, root, n));
+    assert(node_ok(buf, g0, root, p));
+    assert(g1.ng[p].pos == g0.ng[p].pos && g1.ng[p].a == g0.ng[p].a && g1.ng[p].b == g0.ng[p].b);
+    assert(g2.ng[p].a == g1.ng[p].a && g2.ng[p].b == g1.ng[p].b);
+    assert forall|m: int| 0 <= m < g0.ng.len() && g0.ng[n].a <= g0.ng[m].pos < g0.ng[n].b implies
+        (#[trigger] g2.ng[m]).a == g0.ng[m].a && g2.ng[m].b == g0.ng[m].b by {
+        assert(g1.ng[m].pos == g0.ng[m].pos && g1.ng[m].a == g0.ng[m].a && g1.ng[m].b == g0.ng[m].b);
+    }
+    assert forall|m: int| 0 <= m < g0.ng.len() && 0 <= g0.ng[m].pos < g0.ord.len() && g0.ord[g0.ng[m].pos] as int == m implies {
+        &&& (g0.ng[m].a <= pn < g0.ng[m].pos ==> (#[trigger] g2.ng[m]).a == g0.ng[m].a)
+        &&& (g0.ng[m].pos < pn < g0.ng[m].b ==> g2.ng[m].b == g0.ng[m].b)
+    } by {
+        assert(g1.ng[m].pos == g0.ng[m].pos && g1.ng[m].a == g0.ng[m].a && g1.ng[m].b == g0.ng[m].b);
+        assert(in_tree(buf, g0, m));
+        assert(node_ok(buf, g0, root, m));
+        if m != p {
+            if g0.ng[m].a <= pn < g0.ng[m].pos {
+                let l = buf[m].left as int;
+                lemma_nested(buf, g0, root, l, n);
+            }
+            if g0.ng[m].pos < pn < g0.ng[m].b {
+                let r = buf[m].right as int;
+                lemma_nested(buf, g0, root, r, n);
+            }
+        }
+    }
+}
+
 pub open spec fn sibling_of<K, V>(buf: Buf<K, V>, n: int) -> u32 {
     let p = buf[n].parent;
     if buf[p as int].left as int == n { buf[p as int].right } else { buf[p as int].left }
@@ -356,6 +451,7 @@ pub proof fn lemma_del_facts<K: Ord, V>(b0: Buf<K, V>, g0: G, r0: u32, n: int)
         b0[n].parent != EMPTY_REF,
     ensures
         b0.len() < EMPTY_REF,
+        g0.ng.len() == b0.len(), g0.ng[n].a <= g0.ng[n].pos < g0.ng[n].b,
         0 <= range_len(g0, n) <= g0.ord.len(),
         n != r0 as int,
         ({
@@ -398,6 +494,7 @@ pub proof fn lemma_del_case1<K: Ord, V>(b0: Buf<K, V>, g0: G, r0: u32, n: int) -
     requires
         sinv(b0, g0, r0), cinv_def(b0, g0, n), in_tree(b0, g0, n), n == r0 as int,
     ensures
+        same_pos(g1, g0), keeps_bounds(g1, g0, g0.ng[n].pos), keeps_inside(g1, g0, n),
         g1 == (G { ord: g0.ord, ng: add_bh(g0.ng, n, -1) }),
         sinv(b0, g1, r0), cinv(b0, g1, -1),
 {
@@ -427,6 +524,8 @@ pub proof fn lemma_del_case34<K: Ord, V>(b0: Buf<K, V>, g0: G, r0: u32, n: int, 
         }),
         nil_under(g0, n),
     ensures
+        same_pos(g1, g0), keeps_bounds(g1, g0, g0.ng[n].pos), keeps_inside(g1, g0, n),
+        g1.ng[b0[n].parent as int].a == g0.ng[b0[n].parent as int].a && g1.ng[b0[n].parent as int].b == g0.ng[b0[n].parent as int].b,
         same_shape_at(b1, b0, 0), same_shape_at(b1, b0, n), nil_under(g1, b0[n].parent as int),
         ({
             let p = b0[n].parent; let s = sibling_of(b0, n);
@@ -1293,6 +1392,64 @@ pub proof fn lemma_insert_pool<K: Ord, V>(b0: Buf<K, V>, g0: G, r0: u32, u0: Seq
     }
 }
 
+
+// ranges form a laminar family: a node m positioned inside i's range has its whole range inside i's range,
+// and unless m is i itself its parent is positioned inside i's range too
+pub proof fn lemma_nested<K: Ord, V>(buf: Buf<K, V>, g: G, root: u32, i: int, m: int)
+    requires
+        sinv(buf, g, root), in_tree(buf, g, i), in_tree(buf, g, m),
+        g.ng[i].a <= g.ng[m].pos < g.ng[i].b,
+    ensures
+        g.ng[i].a <= g.ng[m].a && g.ng[m].b <= g.ng[i].b,
+        m != i ==> buf[m].parent != EMPTY_REF && g.ng[i].a <= g.ng[buf[m].parent as int].pos < g.ng[i].b,
+    decreases g.ng[i].b - g.ng[i].a,
+{
+    reveal(sinv);
+    assert(node_ok(buf, g, root, i));
+    assert(node_ok(buf, g, root, m));
+    if m != i {
+        assert(g.ord[g.ng[m].pos] as int == m && g.ord[g.ng[i].pos] as int == i);
+        if g.ng[m].pos < g.ng[i].pos {
+            lemma_nested(buf, g, root, buf[i].left as int, m);
+        } else {
+            lemma_nested(buf, g, root, buf[i].right as int, m);
+        }
+    }
+}
+
+// height of the subtree at link l, by structural recursion bounded by fuel
+pub open spec fn height_f<K, V>(buf: Buf<K, V>, l: u32, fuel: nat) -> nat
+    decreases fuel
+{
+    if l == EMPTY_REF || fuel == 0 || l as int >= buf.len() { 0 } else {
+        let hl = height_f(buf, buf[l as int].left, (fuel - 1) as nat);
+        let hr = height_f(buf, buf[l as int].right, (fuel - 1) as nat);
+        1 + (if hl >= hr { hl } else { hr })
+    }
+}
+
+pub open spec fn pow2(e: nat) -> nat decreases e { if e == 0 { 1 } else { 2 * pow2((e - 1) as nat) } }
+
+// a subtree with black height bh has at least 2^bh - 1 entries and height at most 2*bh + [red]
+pub proof fn lemma_height<K: Ord, V>(buf: Buf<K, V>, g: G, root: u32, i: int, fuel: nat)
+    requires
+        sinv(buf, g, root), cinv(buf, g, -1), in_tree(buf, g, i),
+        fuel >= g.ng[i].b - g.ng[i].a,
+    ensures
+        g.ng[i].b - g.ng[i].a + 1 >= pow2(g.ng[i].bh as nat),
+        height_f(buf, i as u32, fuel) <= 2 * g.ng[i].bh + (if buf[i].color == Color::Red { 1int } else { 0int }),
+    decreases g.ng[i].b - g.ng[i].a,
+{
+    reveal(sinv); reveal(cinv);
+    assert(node_ok(buf, g, root, i));
+    assert(color_ok(buf, g, i, -1));
+    let l = buf[i].left; let r = buf[i].right;
+    if l != EMPTY_REF { assert(color_ok(buf, g, l as int, -1)); lemma_height(buf, g, root, l as int, (fuel - 1) as nat); }
+    if r != EMPTY_REF { assert(color_ok(buf, g, r as int, -1)); lemma_height(buf, g, root, r as int, (fuel - 1) as nat); }
+    assert(pow2(0) == 1);
+    if g.ng[i].bh > 0 { assert(pow2(g.ng[i].bh as nat) == 2 * pow2((g.ng[i].bh - 1) as nat)); }
+}
+
 // exact effect of rotate_left(x) on links, root and ghost ranges
 pub open spec fn rot_left_rel<K, V>(b1: Buf<K, V>, g1: G, r1: u32, b0: Buf<K, V>, g0: G, r0: u32, x: int) -> bool {
     let y = b0[x].right;
@@ -1607,6 +1764,7 @@ pub proof fn lemma_del_red_sibling_left<K: Ord, V>(b0: Buf<K, V>, g0: G, r0: u32
         sinv(b1, g1r, r1),
         nil_under(g0, n),
     ensures
+        same_pos(g1, g0), keeps_bounds(g1, g0, g0.ng[n].pos), keeps_inside(g1, g0, n),
         same_shape_at(b1, b0, 0), nil_under(g1, n), range_len(g1, n) == range_len(g0, n),
         ({
             let p = b0[n].parent; let s = b0[p as int].right;
@@ -1666,6 +1824,7 @@ pub proof fn lemma_del_case5_left<K: Ord, V>(b0: Buf<K, V>, g0: G, r0: u32, n: i
         sinv(b1, g1r, r1),
         nil_under(g0, n),
     ensures
+        same_pos(g1, g0), keeps_bounds(g1, g0, g0.ng[n].pos), keeps_inside(g1, g0, n),
         same_shape_at(b1, b0, 0), nil_under(g1, n), range_len(g1, n) == range_len(g0, n),
         ({
             let p = b0[n].parent; let s = b0[p as int].right; let sl = b0[s as int].left;
@@ -1727,6 +1886,7 @@ pub proof fn lemma_del_case6_left<K: Ord, V>(b0: Buf<K, V>, g0: G, r0: u32, n: i
         sinv(b1, g1r, r1),
         nil_under(g0, n),
     ensures
+        same_pos(g1, g0), keeps_bounds(g1, g0, g0.ng[n].pos), keeps_inside(g1, g0, n),
         same_shape_at(b1, b0, 0),
         ({
             let p = b0[n].parent; let s = b0[p as int].right; let sr = b0[s as int].right;
@@ -1780,6 +1940,7 @@ pub proof fn lemma_del_red_sibling_right<K: Ord, V>(b0: Buf<K, V>, g0: G, r0: u3
         sinv(b1, g1r, r1),
         nil_under(g0, n),
     ensures
+        same_pos(g1, g0), keeps_bounds(g1, g0, g0.ng[n].pos), keeps_inside(g1, g0, n),
         same_shape_at(b1, b0, 0), nil_under(g1, n), range_len(g1, n) == range_len(g0, n),
         ({
             let p = b0[n].parent; let s = b0[p as int].left;
@@ -1839,6 +2000,7 @@ pub proof fn lemma_del_case5_right<K: Ord, V>(b0: Buf<K, V>, g0: G, r0: u32, n: 
         sinv(b1, g1r, r1),
         nil_under(g0, n),
     ensures
+        same_pos(g1, g0), keeps_bounds(g1, g0, g0.ng[n].pos), keeps_inside(g1, g0, n),
         same_shape_at(b1, b0, 0), nil_under(g1, n), range_len(g1, n) == range_len(g0, n),
         ({
             let p = b0[n].parent; let s = b0[p as int].left; let sl = b0[s as int].right;
@@ -1900,6 +2062,7 @@ pub proof fn lemma_del_case6_right<K: Ord, V>(b0: Buf<K, V>, g0: G, r0: u32, n: 
         sinv(b1, g1r, r1),
         nil_under(g0, n),
     ensures
+        same_pos(g1, g0), keeps_bounds(g1, g0, g0.ng[n].pos), keeps_inside(g1, g0, n),
         same_shape_at(b1, b0, 0),
         ({
             let p = b0[n].parent; let s = b0[p as int].left; let sr = b0[s as int].left;
@@ -2301,6 +2464,9 @@ impl<K: Copy + Ord + Default, V: Clone + Default> MapTree<K, V> {
             in_tree(old(self).store.buffer@, old(self).g@, n_index as int),
             nil_under(old(self).g@, n_index as int),
         ensures
+            same_pos(final(self).g@, old(self).g@),
+            keeps_bounds(final(self).g@, old(self).g@, old(self).g@.ng[n_index as int].pos),
+            keeps_inside(final(self).g@, old(self).g@, n_index as int),
             sinv(final(self).store.buffer@, final(self).g@, final(self).root),
             cinv(final(self).store.buffer@, final(self).g@, -1),
             same_entities(final(self).store.buffer@, old(self).store.buffer@),
@@ -2327,6 +2493,7 @@ impl<K: Copy + Ord + Default, V: Clone + Default> MapTree<K, V> {
             s_index = self.get_sibling(n_index) // Get new sibling for fall-through to cases 3-6
         }
         let ghost s1 = (self.store.buffer@, self.g@, self.root);
+        proof { lemma_bounds_refl(old(self).g@, old(self).g@.ng[n_index as int].pos); }
 
         let sibling = self.node(s_index);
 
@@ -2339,15 +2506,24 @@ impl<K: Copy + Ord + Default, V: Clone + Default> MapTree<K, V> {
             let parent = self.node_mut(p_index);
             if parent.color == Color::Red {
                 parent.color = Color::Black;
-                proof { self.g@ = lemma_del_case34(s1.0, s1.1, s1.2, n_index as int, self.store.buffer@); }
+                proof {
+                    self.g@ = lemma_del_case34(s1.0, s1.1, s1.2, n_index as int, self.store.buffer@);
+                    lemma_bounds_trans(self.g@, s1.1, old(self).g@, old(self).g@.ng[n_index as int].pos); lemma_inside_trans(self.g@, s1.1, old(self).g@, n_index as int);
+                }
             } else {
                 // Case 4: Black sibling with two black children + black parent
                 proof { self.g@ = lemma_del_case34(s1.0, s1.1, s1.2, n_index as int, self.store.buffer@); }
+                let ghost g1 = self.g@;
                 self.fix_red_black_properties_after_delete(p_index);
+                proof {
+                    lemma_bounds_up(s1.0, s1.1, s1.2, n_index as int, g1, self.g@);
+                    lemma_bounds_trans(self.g@, s1.1, old(self).g@, old(self).g@.ng[n_index as int].pos); lemma_inside_trans(self.g@, s1.1, old(self).g@, n_index as int);
+                }
             }
         } else {
             // Case 5+6: Black sibling with at least one red child
             self.handle_black_sibling_with_at_least_one_red_child(n_index, s_index);
+            proof { lemma_bounds_trans(self.g@, s1.1, old(self).g@, old(self).g@.ng[n_index as int].pos); lemma_inside_trans(self.g@, s1.1, old(self).g@, n_index as int); }
         }
     }
 
@@ -2362,6 +2538,9 @@ impl<K: Copy + Ord + Default, V: Clone + Default> MapTree<K, V> {
             !(is_blk(old(self).store.buffer@, old(self).store.buffer@[s_origin as int].left) && is_blk(old(self).store.buffer@, old(self).store.buffer@[s_origin as int].right)),
             nil_under(old(self).g@, n_index as int),
         ensures
+            same_pos(final(self).g@, old(self).g@),
+            keeps_bounds(final(self).g@, old(self).g@, old(self).g@.ng[n_index as int].pos),
+            keeps_inside(final(self).g@, old(self).g@, n_index as int),
             sinv(final(self).store.buffer@, final(self).g@, final(self).root),
             cinv(final(self).store.buffer@, final(self).g@, -1),
             same_entities(final(self).store.buffer@, old(self).store.buffer@),
@@ -2412,7 +2591,7 @@ impl<K: Copy + Ord + Default, V: Clone + Default> MapTree<K, V> {
             sibling_right = sibling.right;
         }
         let ghost s1 = (self.store.buffer@, self.g@, self.root);
-        proof { lemma_del_facts(s1.0, s1.1, s1.2, n_index as int); }
+        proof { lemma_del_facts(s1.0, s1.1, s1.2, n_index as int); lemma_bounds_refl(old(self).g@, old(self).g@.ng[n_index as int].pos); }
 
         // Fall-through to case 6...
 
@@ -2427,7 +2606,10 @@ impl<K: Copy + Ord + Default, V: Clone + Default> MapTree<K, V> {
             let ghost bm = self.store.buffer@;
             proof { lemma_sinv_same_struct(bm, self.g@, s1.0, s1.1, self.root); }
             self.rotate_left(p_index);
-            proof { self.g@ = lemma_del_case6_left(s1.0, s1.1, s1.2, n_index as int, bm, self.store.buffer@, self.g@, self.root); }
+            proof {
+                self.g@ = lemma_del_case6_left(s1.0, s1.1, s1.2, n_index as int, bm, self.store.buffer@, self.g@, self.root);
+                lemma_bounds_trans(self.g@, s1.1, old(self).g@, old(self).g@.ng[n_index as int].pos); lemma_inside_trans(self.g@, s1.1, old(self).g@, n_index as int);
+            }
         } else {
             if sibling_left != EMPTY_REF {
                 self.node_mut(sibling_left).color = Color::Black;
@@ -2435,7 +2617,10 @@ impl<K: Copy + Ord + Default, V: Clone + Default> MapTree<K, V> {
             let ghost bm = self.store.buffer@;
             proof { lemma_sinv_same_struct(bm, self.g@, s1.0, s1.1, self.root); }
             self.rotate_right(p_index);
-            proof { self.g@ = lemma_del_case6_right(s1.0, s1.1, s1.2, n_index as int, bm, self.store.buffer@, self.g@, self.root); }
+            proof {
+                self.g@ = lemma_del_case6_right(s1.0, s1.1, s1.2, n_index as int, bm, self.store.buffer@, self.g@, self.root);
+                lemma_bounds_trans(self.g@, s1.1, old(self).g@, old(self).g@.ng[n_index as int].pos); lemma_inside_trans(self.g@, s1.1, old(self).g@, n_index as int);
+            }
         }
     }
 
@@ -2449,6 +2634,9 @@ impl<K: Copy + Ord + Default, V: Clone + Default> MapTree<K, V> {
             old(self).store.buffer@[s_index as int].color == Color::Red,
             nil_under(old(self).g@, n_index as int),
         ensures
+            same_pos(final(self).g@, old(self).g@),
+            keeps_bounds(final(self).g@, old(self).g@, old(self).g@.ng[n_index as int].pos),
+            keeps_inside(final(self).g@, old(self).g@, n_index as int),
             same_shape_at(final(self).store.buffer@, old(self).store.buffer@, 0),
             nil_under(final(self).g@, n_index as int),
             range_len(final(self).g@, n_index as int) == range_len(old(self).g@, n_index as int),
